@@ -7,21 +7,45 @@ CONSTANTS MaxLen, Kind
 VARIABLES txt
 (* alphabets as code points *)
 IntAlpha == <<45, 48, 49, 55, 56, 57, 97, 102, 120, 103, 46>>          \* - 0 1 7 8 9 a f x g .
-QuoAlpha == <<92, 34, 120, 48, 55, 56, 97, 103, 43>>                   \* \ " x 0 7 8 a g +
+QuoAlpha == <<92, 34, 120, 48, 55, 56, 97, 103, 43, 233>>              \* \ " x 0 7 8 a g + e-acute (2 UTF-8 bytes)
 RawAlpha == <<34, 35, 97>>                                              \* " # a
 HexAlpha == <<48, 97, 102, 103, 43, 58, 45, 46>>                       \* 0 a f g + : - .
+IpAlpha  == <<49, 48, 46, 47, 58, 102>>                                 \* 1 0 . / : f
+(* base addresses for the block forms: every prefix length 0..bits+1 is appended *)
+Bases == <<<<48, 46, 48, 46, 48, 46, 48>>,
+          <<50, 53, 53, 46, 50, 53, 53, 46, 50, 53, 53, 46, 50, 53, 53>>,
+          <<49, 50, 56, 46, 48, 46, 48, 46, 48>>,
+          <<49, 48, 46, 49, 46, 50, 46, 51>>,
+          <<49, 57, 50, 46, 49, 54, 56, 46, 48, 46, 48>>,
+          <<58, 58>>,
+          <<102, 102, 102, 102, 58, 102, 102, 102, 102, 58, 102, 102, 102, 102, 58, 102, 102, 102, 102, 58, 102, 102, 102, 102, 58, 102, 102, 102, 102, 58, 102, 102, 102, 102, 58, 102, 102, 102, 102>>,
+          <<56, 48, 48, 48, 58, 58>>,
+          <<50, 48, 48, 49, 58, 100, 98, 56, 58, 58, 49>>,
+          <<58, 58, 102, 102, 102, 102, 58, 49, 46, 50, 46, 51, 46, 52>>,
+          <<49, 58, 50, 58, 51, 58, 52, 58, 53, 58, 54, 58, 55, 58, 56>>>>
+RECURSIVE DecText(_)
+DecText(n) == IF n < 10 THEN <<48 + n>> ELSE DecText(n \div 10) \o <<48 + (n % 10)>>
+BlockTexts == {Bases[i] \o <<47>> \o DecText(n) : i \in 1..Len(Bases), n \in 0..130}
+              \cup {Bases[i] \o <<46, 46>> \o Bases[j] : i \in 1..Len(Bases), j \in 1..Len(Bases)}
 Alpha == IF Kind \in {"int", "index"} THEN IntAlpha ELSE IF Kind = "quoted" THEN QuoAlpha
+         ELSE IF Kind \in {"ipeq", "ipitem"} THEN IpAlpha
          ELSE IF Kind = "raw" THEN RawAlpha ELSE HexAlpha
 Bodies == UNION {[1..n -> 1..Len(Alpha)] : n \in 0..MaxLen}
 Text(b) == LET cs == Strict([i \in 1..Len(b) |-> Alpha[b[i]]]) IN
            IF Kind = "quoted" THEN <<34>> \o cs                      \* opening quote, body decides the rest
            ELSE IF Kind = "raw" THEN <<114>> \o cs
            ELSE cs
-EvKind == IF Kind \in {"int", "index"} THEN Kind ELSE "bytes"
-Init == txt \in {Text(b) : b \in Bodies}
+EvKind == IF Kind \in {"int", "index", "ipeq", "ipitem"} THEN Kind ELSE IF Kind = "blocks" THEN "ipitem" ELSE "bytes"
+Init == txt \in (IF Kind = "blocks" THEN BlockTexts ELSE {Text(b) : b \in Bodies} \ (IF Kind \in {"ipeq", "ipitem"} THEN {<<>>} ELSE {}))
 Next == FALSE /\ UNCHANGED txt
 Spec == Init /\ [][Next]_txt
-Emit == PrintT(<<"REPLAY", ToJson([ev |-> "lit", kind |-> EvKind, chars |-> txt, exp |-> Expected(EvKind, txt)])>>)
+Exp == IF EvKind \in {"ipeq", "ipitem"} THEN ExpectedIp(EvKind, txt) ELSE Expected(EvKind, txt)
+Emit == PrintT(<<"REPLAY", ToJson([ev |-> "lit", kind |-> EvKind, chars |-> txt, exp |-> Exp])>>)
+(* a block is accepted iff its prefix length fits the family and the address has no bit below it *)
+BlockTheorem == Kind = "blocks" /\ LastSlash(txt) > 0 =>
+                  LET a == Addr(Sub(txt, 1, LastSlash(txt) - 1))
+                      n == DecVal(Sub(txt, LastSlash(txt) + 1, Len(txt)), 0)
+                  IN (Exp.ok = "yes") <=> (a.ok /\ n <= 8 * Len(a.v) /\ CidrFirst(a.v, n) = a.v)
 (* sanity theorems of the lexers themselves *)
 ConsumedInRange == \A k \in {"int", "bytes"} : LET r == (IF k = "int" THEN LexInt(txt) ELSE LexBytes(txt)) IN
                       r.ok => (r.n >= 1 /\ r.n <= Len(txt))
